@@ -20,6 +20,7 @@ RUNG_SYSTEMS = {
     "g1inc2m7": dict(grace=1, inc=2, max_t=7),
     "lv125m6": dict(levels=[1, 2, 5], max_t=6),
     "g1rf2m5": dict(grace=1, rf=2, max_t=5),
+    "g1rf3m27": dict(grace=1, rf=3, max_t=27),      # levels 1, 3, 9 (long single-worker histories only)
     "g1rf2.5m7": dict(grace=1, rf=2.5, max_t=7),   # non-integer reduction factor: levels 1, 2, 6 (round(2.5**2) = 6, not round(2*2.5) = 5)
 }
 
@@ -92,7 +93,7 @@ def build_world(cfg):
     table = table_from_perms(cfg["T"], max_t, perms, sign, zero_rank=cfg.get("zero_rank"))
     spec = dict(W=cfg["W"], T=cfg["T"], R=max_t, table=table, brackets=(nb if nb > 1 else 0) if not cfg.get("free_brackets") else 0,
                 max_resource_attr="epochs" if cfg.get("use_mra") else None,
-                fail_budget=cfg.get("F", 0), id0=cfg.get("id0", 0))
+                fail_budget=cfg.get("F", 0), id0=cfg.get("id0", 0), rereport=cfg.get("rereport", 0))
     ref = StoppingRef(levels, max_t, cfg["mode"], nb, cfg["per_bracket"],
                       rush_k=cfg.get("rush_k") if cfg["type"] == "rush_stopping" else None)
     w = World(s, spec, [ref, RungInvariant(ref)])
@@ -124,7 +125,7 @@ def configs(tier, seed):
         systems = ["g1rf2m4", "lv125m6"]
         T, W = 4, 2
     else:
-        systems = list(RUNG_SYSTEMS)
+        systems = [k for k in RUNG_SYSTEMS if k != "g1rf3m27"]
         T, W = 4, 3
     for rs_name in systems:
         rs = RUNG_SYSTEMS[rs_name]
@@ -150,6 +151,8 @@ def configs(tier, seed):
                                    rush_k=k, T=T, W=W, perms=perms, seed=seed, use_mra=(i % 2 == 1))
                         cfg["zero_rank"] = [None, T - 1, 1][(i + len(out)) % 3]
                         cfg["id0"] = 8 if (typ == "stopping" and len(out) % 2) else 0
+                        # every third configuration: one job reports a level twice ("each trial enters a rung at most once")
+                        cfg["rereport"] = 1 if len(out) % 3 == 1 else 0
                         if tier == "quick":
                             cfg["max_states"] = 4000
                         else:
